@@ -2,9 +2,9 @@
 (***************************************************************************)
 (* Exports behaviours of XoBytes for replay into the real buffers.          *)
 (*  GSpec: exhaustive - every transition of every sequence of <= MaxSteps   *)
-(*         primitives is printed as one JSON line [path, post] (path = the  *)
-(*         commands from the initial state, post = the observable state     *)
-(*         after the last one).  -workers 1.                                *)
+(*         primitives is printed as one self-contained JSON line: the       *)
+(*         commands from the initial state, each with the observable state  *)
+(*         after it.  -workers 1.                                           *)
 (*  SSpec: for `tlc -simulate`: the whole behaviour (command + post-state   *)
 (*         per step) is printed once, when it is MaxSteps long.             *)
 (* update_from_nplike is exported once per (off, dest width, count): the    *)
@@ -25,7 +25,6 @@ Proj == [mem |-> mem', bufA |-> buf'["A"], bufB |-> buf'["B"],
                                              cur |-> IF views'[i].st = buf'[views'[i].b] THEN 1 ELSE 0]],
          last |-> last']
 Rec(c) == hist' = Append(hist, [cmd |-> c, post |-> Proj])
-Path(h) == [i \in DOMAIN h |-> h[i].cmd]
 
 Step ==
   \/ \E b \in Bufs : \E off \in Offs(b) : \E n \in 0..(Cap(b) - off) :
@@ -53,7 +52,7 @@ Step ==
   \/ \E b \in Bufs, n \in GrowAmounts : Cap(b) + n <= MaxCap /\ Grow(b, n, Fresh(step, n)) /\ Rec(Cmd("grow", b, Cap(b), n))
 
 GInit == Init /\ hist = << >>
-GNext == step < MaxSteps /\ Step /\ PrintT(ToJson([path |-> Path(hist'), post |-> hist'[Len(hist')].post]))
+GNext == step < MaxSteps /\ Step /\ PrintT(ToJson([beh |-> hist']))
 GSpec == GInit /\ [][GNext]_gvars
 
 SNext == \/ step < MaxSteps /\ Step
